@@ -19,6 +19,17 @@ def model_check(ctx):
     if os.environ.get("VERIF_SKIP_MC"):      # only for trying changes of the Go code out (scratch worktree): the model is unaffected
         ctx.note("model checking skipped (VERIF_SKIP_MC)")
         return
+    jobs = []        # (kwargs of ctx.tlc, check(result) or None); independent runs, 3 at a time with 2 TLC workers each
+
+    def job(check=None, **kw):
+        jobs.append((kw, check))
+
+    def must_violate(inv, msg, pattern=None):
+        def chk(r):
+            if r["violated"] != inv or (pattern and not re.search(pattern, r["text"])):
+                raise Machinery("%s (vacuity); log %s" % (msg, r["log"]))
+        return chk
+
     grid = [dict(MEM_BASE),
             dict(MEM_BASE, Classes={1, 2}, NAdmin=1, OpKinds={"updidx", "updkey", "delidx", "add"}),
             dict(MEM_WHOLE, Classes=ctx.pick({1}, {1, 2}), NAdmin=ctx.pick(1, 2))]
@@ -31,54 +42,49 @@ def model_check(ctx):
                  dict(MEM_BASE, InitN=4, InitCap=4, NAdmin=1, MaxOps=3),
                  dict(MEM_BASE, InitN=2, InitCap=2, NDisp=2, MaxOps=2, Classes={1, 2},
                       OpKinds={"add", "delidx", "delkey", "updidx"})]
+    grid.sort(key=lambda c: -(c["MaxOps"] * 10 + c["NAdmin"] + c["NDisp"] + len(c["Classes"])))      # the long ones first
     for c in grid:
-        ctx.tlc("TableMem", "TableMem_mc.cfg", consts=c, invariants=MEM_INV, workers=4,
-                timeout=ctx.pick(900, 3000))
+        job(consts=c, invariants=MEM_INV, timeout=ctx.pick(900, 3000))
     # non-vacuity: the pinned delete (cells of the shared array shifted in place) and a missing mutex are rejected
-    r = ctx.tlc("TableMem", "TableMem_mc.cfg", consts=dict(MEM_BASE, DeleteInPlace=True), invariants=["Atomic"],
-                workers=4, expect_ok=False, count=False, tag="nv_atomic")
-    if r["violated"] != "Atomic":
-        raise Machinery("DeleteInPlace=TRUE does not violate Atomic in the model (vacuity)")
+    job(must_violate("Atomic", "DeleteInPlace=TRUE does not violate Atomic in the model"),
+        consts=dict(MEM_BASE, DeleteInPlace=True), invariants=["Atomic"], expect_ok=False, count=False, tag="nv_atomic")
     if not q:
-        r = ctx.tlc("TableMem", "TableMem_mc.cfg", consts=dict(MEM_BASE, DeleteInPlace=True), invariants=["SnapshotImmutable"],
-                    workers=4, expect_ok=False, count=False, tag="nv_snap")
-        if r["violated"] != "SnapshotImmutable":
-            raise Machinery("DeleteInPlace=TRUE does not violate SnapshotImmutable in the model (vacuity)")
-    r = ctx.tlc("TableMem", "TableMem_mc.cfg", consts=dict(MEM_BASE, UseMutex=False), invariants=["ViewOK"],
-                workers=4, expect_ok=False, count=False, tag="nv_mutex")
-    if r["violated"] != "ViewOK":
-        raise Machinery("UseMutex=FALSE does not violate ViewOK in the model (vacuity)")
+        job(must_violate("SnapshotImmutable", "DeleteInPlace=TRUE does not violate SnapshotImmutable in the model"),
+            consts=dict(MEM_BASE, DeleteInPlace=True), invariants=["SnapshotImmutable"], expect_ok=False, count=False, tag="nv_snap")
+    job(must_violate("ViewOK", "UseMutex=FALSE does not violate ViewOK in the model"),
+        consts=dict(MEM_BASE, UseMutex=False), invariants=["ViewOK"], expect_ok=False, count=False, tag="nv_mutex")
     # the delete of the LAST entry as a plain truncation s[:n-1] (capacity not capped): the next add appends in place into a
     # cell that older, longer published slices still cover.  One delete + one add already breaks SnapshotImmutable; at the
     # granularity of the replay (CoarseAdmin: dispatcher steps only between complete operations) Atomic survives every
     # history of 2 operations and breaks with 3 (delete-last, delete-last, add) -- hence the 3-operation replay schedules.
     trunc = dict(MEM_BASE, TruncateTail=True, NAdmin=1, OpKinds={"add", "delidx"})
-    r = ctx.tlc("TableMem", "TableMem_mc.cfg", consts=dict(trunc), invariants=["SnapshotImmutable"],
-                workers=4, expect_ok=False, count=False, tag="nv_trunc_snap")
-    if r["violated"] != "SnapshotImmutable":
-        raise Machinery("TruncateTail=TRUE with 2 operations does not violate SnapshotImmutable in the model (vacuity)")
-    ctx.tlc("TableMem", "TableMem_mc.cfg", consts=dict(trunc, CoarseAdmin=True), invariants=["Atomic", "NoSkipNoDup", "ViewOK"],
-            workers=4, count=False, tag="nv_trunc_2ops")
-    r = ctx.tlc("TableMem", "TableMem_mc.cfg", consts=dict(trunc, CoarseAdmin=True, MaxOps=3), invariants=["Atomic"],
-                workers=4, expect_ok=False, count=False, tag="nv_trunc_atomic")
-    if r["violated"] != "Atomic" or not re.search(r"dvis = <<<<1, 4, 3>>>>", r["text"]):
-        raise Machinery("TruncateTail=TRUE: delete-last, delete-last, add under a held dispatcher is not rejected as Atomic "
-                        "with the visit list <<1, 4, 3>> (vacuity); log %s" % r["log"])
+    job(must_violate("SnapshotImmutable", "TruncateTail=TRUE with 2 operations does not violate SnapshotImmutable in the model"),
+        consts=dict(trunc), invariants=["SnapshotImmutable"], expect_ok=False, count=False, tag="nv_trunc_snap")
+    job(consts=dict(trunc, CoarseAdmin=True), invariants=["Atomic", "NoSkipNoDup", "ViewOK"], count=False, tag="nv_trunc_2ops")
+    job(must_violate("Atomic", "TruncateTail=TRUE: delete-last, delete-last, add under a held dispatcher is not rejected as Atomic "
+                     "with the visit list <<1, 4, 3>>", r"dvis = <<<<1, 4, 3>>>>"),
+        consts=dict(trunc, CoarseAdmin=True, MaxOps=3), invariants=["Atomic"], expect_ok=False, count=False, tag="nv_trunc_atomic")
     # Dispatch loads the configuration a second time for its route loop (front end of one version, routes of a later one):
     # ONE change in between cannot be told from "wholly before / wholly after"; TWO changes -- the front end first, then the
     # routes -- give an outcome that no version of the whole table has.  Hence the two-list replay schedules (kind fe).
-    ctx.tlc("TableMem", "TableMem_mc.cfg", consts=dict(MEM_WHOLE, LoadTwice=True, MaxOps=1), invariants=["Atomic", "NoSkipNoDup"],
-            workers=4, count=False, tag="nv_twice_1op")
+    job(consts=dict(MEM_WHOLE, LoadTwice=True, MaxOps=1), invariants=["Atomic", "NoSkipNoDup"], count=False, tag="nv_twice_1op")
     pairs = [({"bl+"}, {"add"}), ({"rw+"}, {"add"}), ({"rw-"}, {"delkey"})]
     if not q:
         pairs += [({"agg+"}, {"add"}), ({"agg+"}, {"delkey"}), ({"bl+"}, {"delkey"})]
     for n, (fk, ok) in enumerate(pairs):
-        r = ctx.tlc("TableMem", "TableMem_mc.cfg", consts=dict(MEM_WHOLE, LoadTwice=True, FeKinds=fk, OpKinds=ok),
-                    invariants=["Atomic"], workers=2, expect_ok=False, count=False, tag="nv_twice_%d" % n)
-        if r["violated"] != "Atomic":
-            raise Machinery("LoadTwice=TRUE with %s then %s does not violate Atomic in the model (vacuity); log %s" % (fk, ok, r["log"]))
+        job(must_violate("Atomic", "LoadTwice=TRUE with %s then routes %s does not violate Atomic in the model" % (fk, ok)),
+            consts=dict(MEM_WHOLE, LoadTwice=True, FeKinds=fk, OpKinds=ok), invariants=["Atomic"], expect_ok=False, count=False,
+            tag="nv_twice_%d" % n)
+    ctx.specdir()
+    with ThreadPoolExecutor(max_workers=3) as ex:
+        futs = [ex.submit(ctx.tlc, "TableMem", "TableMem_mc.cfg", workers=2, **kw) for kw, _ in jobs]
+        res = [f.result() for f in futs]
+    for (kw, chk), r in zip(jobs, res):
+        if chk:
+            chk(r)
     ctx.cov["model_deviations_rejected"] = ["LoadTwice=TRUE -> Atomic with 2 changes (%s; not with 1 change)" %
-                                            ", ".join("%s then routes %s" % (sorted(a)[0], sorted(b)[0]) for a, b in pairs),"DeleteInPlace=TRUE -> Atomic, SnapshotImmutable", "UseMutex=FALSE -> ViewOK",
+                                            ", ".join("%s then routes %s" % (sorted(a)[0], sorted(b)[0]) for a, b in pairs),
+                                            "DeleteInPlace=TRUE -> Atomic, SnapshotImmutable", "UseMutex=FALSE -> ViewOK",
                                             "TruncateTail=TRUE -> SnapshotImmutable (2 ops), Atomic (3 ops: delete-last, "
                                             "delete-last, add; not with 2 complete ops)"]
 
@@ -276,7 +282,11 @@ def run(ctx):
 
     # the front-end gate held: in a "win" schedule both operations were performed while the dispatch was in flight
     if len(blocks) == len(S):
-        loose = [s["h"] for s, b in zip(S, blocks) if s.get("win") and any(e["ev"] == "start" for e in b) and whole_table_cov([b]) == 0]
+        def in_flight_ops(b):
+            st = next((i for i, e in enumerate(b) if e["ev"] == "start"), len(b))
+            en = next((i for i, e in enumerate(b) if e["ev"] == "end"), len(b))
+            return sum(1 for e in b[st:en] if e["ev"] == "opbegin")
+        loose = [s["h"] for s, b in zip(S, blocks) if s.get("win") and in_flight_ops(b) != sum(1 for x in s["steps"] if x["ev"] == "op")]
         if loose:
             raise Machinery("kind fe: the dispatcher was not held at the front-end gate (aggregator mock clock) in %d histories, "
                             "e.g. h=%d: the gate point is gone from Table.Dispatch / aggregator.AddMaybe?" % (len(loose), loose[0]))
